@@ -124,6 +124,23 @@ class UPred:
         return fn(*flat) if flat else z3.Const(self.name + "!const", sort_for_kind(self.result_kind))
 
 
+class SuperRef:
+    """`super()` inside a method of a repository class: the receiver and the base class the lookup continues at"""
+
+    def __init__(self, self_val, base):
+        self.self_val = self_val
+        self.base = base
+
+    def leaves(self):
+        return []
+
+    def rebuild(self, leaves):
+        return self
+
+    def sig(self):
+        return ("SuperRef", self.base.name if self.base is not None else None)
+
+
 class UFunc:
     """an unknown pure callable returning a value of a declared type: each distinct argument tuple yields one fresh value"""
 
@@ -930,7 +947,18 @@ class Interp:
             b = self.ev(node.orelse, st)
         finally:
             st.guards.pop()
-        return merge(c, a, b)
+        try:
+            return merge(c, a, b)
+        except Outside:
+            # values of different structure (e.g. an array and None): fine when the path condition already decides the test
+            s_true, s_false = st.copy(), st.copy()
+            s_true.assume(c)
+            s_false.assume(b_not(c))
+            if not self.ctx.feasible(s_false, timeout_ms=2000):
+                return a
+            if not self.ctx.feasible(s_true, timeout_ms=2000):
+                return b
+            raise
 
     def ev_Compare(self, node, st):
         left = self.ev(node.left, st)
